@@ -449,9 +449,13 @@ def load_known_findings():
 
 
 # ---------------------------------------------------------------- verdict & evidence
+CURRENT = []      # the Run objects of this process (lvcheck's guard finishes the last one if a check raises)
+
+
 class Run:
     def __init__(self, prop, tier, seed):
         self.prop, self.tier, self.seed = prop, tier, seed
+        CURRENT.append(self)
         self.t0 = time.time()
         self.obligations = 0
         self.discharged = 0
